@@ -326,6 +326,46 @@ fn build(g: &Grammar, thorough: bool) -> Vec<C2Case> {
             }
         }
     }
+    // IF_DATA under generated A2ML definitions: conforming instances and every single-token deletion / duplication of them
+    // (whether the result still conforms or falls back to uninterpreted data, every token has to pass through)
+    {
+        use vcore::a2mlref::{balanced, definitions, extra_definitions, instances, print_definition, render_payload};
+        let mut defs = definitions(1, true);
+        defs.extend(extra_definitions());
+        if thorough {
+            defs.extend(definitions(2, false));
+        }
+        let mut seen = std::collections::HashSet::new();
+        for d in &defs {
+            let dt = print_definition(d, false);
+            if !seen.insert(dt.clone()) {
+                continue;
+            }
+            for inst in instances(d, 4).into_iter().filter(|i| !i.is_empty()).take(3) {
+                let mut variants: Vec<(String, Vec<vcore::a2mlref::PTok>)> = vec![("instance".into(), inst.clone())];
+                for i in 0..inst.len() {
+                    let mut del = inst.clone();
+                    del.remove(i);
+                    variants.push(("delete".into(), del));
+                    let mut dup = inst.clone();
+                    dup.insert(i, inst[i].clone());
+                    variants.push(("duplicate".into(), dup));
+                }
+                for (kind, v) in variants {
+                    if v.is_empty() || !balanced(&v) {
+                        continue;
+                    }
+                    // an identifier that the lenient reading takes for a char[n] value is written back as a string
+                    // (documented leniency, don't care as in C18 / C19)
+                    if !vcore::a2mlref::unambiguous(d, &v) {
+                        continue;
+                    }
+                    let text = vcore::ifdoc::doc_text(Some(&dt), &[render_payload(&v)]);
+                    out.push(C2Case { case: Case { label: format!("A2ML [{}] with IF_DATA [{}] ({kind})", dt.replace('\n', " "), render_payload(&v)), class: format!("ifdata-generated-a2ml:{kind}"), text, spec: None, parts: vec![] }, keep: vec![], limit: None });
+                }
+            }
+        }
+    }
     // uninterpreted IF_DATA payloads: all token sequences up to length k
     let k = if thorough { 4 } else { 3 };
     let mut gen = Gen::new(g);
@@ -471,7 +511,7 @@ pub fn run(tier: &str) -> Run {
     run.require("cm: preserved", 1000);
     run.require("ifdata-raw: preserved", 500);
     run.require("limit: rejected", 100);
-    run.rule = "valid documents (by the reference interpreter) from the grammar corpus, value classes, comments at every gap, reversed RECORD_LAYOUT positions, every integer parameter x literals at/beyond its limits, all uninterpreted IF_DATA token sequences up to length k over a 15-token alphabet (with and without leading tag), A2ML-described IF_DATA. Oracle: canonical token list of the interpreter tree of input and output equal (numbers by value at the governing type, strings unescaped, documented reordering applied); block-level comments present in the output; out-of-range literal => rejected | diagnosed | preserved.".into();
+    run.rule = "valid documents (by the reference interpreter) from the grammar corpus, value classes, comments at every gap, reversed RECORD_LAYOUT positions, every integer parameter x literals at/beyond its limits, all uninterpreted IF_DATA token sequences up to length k over a 15-token alphabet (with and without leading tag), A2ML-described IF_DATA, IF_DATA under every generated A2ML definition of depth 1 (and the extra definitions): three instances each and every single-token deletion / duplication of them. Oracle: canonical token list of the interpreter tree of input and output equal (numbers by value at the governing type, strings unescaped, documented reordering applied); block-level comments present in the output; out-of-range literal => rejected | diagnosed | preserved.".into();
     run.assumptions = vec!["comments outside blocks with optional sub-elements may be dropped (statement)".into(), "fractions in uninterpreted IF_DATA are compared at f32 precision".into()];
     run
 }
